@@ -5,6 +5,7 @@ import KM.Gen.GoGate
 import KM.Model.GoTypes
 import KM.Gen.GoTotpManage
 import KM.Gen.GoU2fReg
+import KM.Gen.GoWaReg
 /-! # C08 — the administration predicates as TRANSLATED from the current source (go2lean)
 
 `isAutomationAdmin` and `isAutomationUser` (cmd/keymasterd) are translated statement by statement from /repo's
@@ -308,3 +309,70 @@ theorem c08_go_u2f_register (ext : RegExt) (user : List Char) (lvl : Nat) (e : R
     | (simp at h)
 
 end KM.RegGo
+
+/-! ## `webauthnFinishRegistration` from `checkAuth` to the response (`KM/Gen/GoWaReg.lean`, block) -/
+namespace KM.WaRegGo
+open KM.GoTypes KM.Go
+
+/-- an effect that changes a profile: everything but a refusal and the end -/
+def Changes (e : WaRegEffect) : Prop := (∀ n, e ≠ .fail n) ∧ e ≠ .success
+
+/-- **a WebAuthn credential is registered only for one's own account, or by an admin with U2F, and never into a cached
+profile** (C08, C15), on the translated source of `webauthnFinishRegistration` (from `checkAuth` to the response): the
+credential is added and the profile saved only for an identity `checkAuth` admitted at the web-UI level, for the URL's
+user where that is the caller's own name or the caller is an admin authenticated with U2F, on a profile loaded from the
+PRIMARY store without error, after the library's `FinishRegistration` accepted the response; the profile saved is that
+user's. -/
+theorem c08_go_webauthn_register (ext : WaRegExt) (user : List Char) (lvl : Nat) (e : WaRegEffect) (he : Changes e)
+    (h : e ∈ (KM.Gen.GoWaReg.webauthnRegisterCore ext user lvl).2) :
+    ∃ info, ext.checkAuth lvl = (info, none) ∧
+      (ext.adminAndU2F info.Username info.AuthType = true ∨ info.Username = user) ∧
+      (ext.loadProfile user).2.2.1 = false ∧ (ext.loadProfile user).2.2.2 = none ∧
+      ext.finishRegistration.2 = none ∧ (∀ u, e = .save u → u = user) := by
+  obtain ⟨ca, adm, load, fin, add, save⟩ := ext
+  unfold KM.Gen.GoWaReg.webauthnRegisterCore at h
+  dsimp only at h ⊢
+  have bad0 : e ∈ ([] : List WaRegEffect) → False := by intro hm; cases hm
+  have bad : ∀ n, e ∈ (([] : List WaRegEffect) ++ [WaRegEffect.fail n]) → False := by
+    intro n hm; simp at hm; exact he.1 n hm
+  by_cases hce : (ca lvl).2.isSome = true
+  · rw [if_pos hce] at h; exact (bad0 h).elim
+  rw [if_neg hce] at h
+  have hca : ca lvl = ((ca lvl).1, none) := by
+    cases hh : (ca lvl).2 with
+    | none => exact Prod.ext rfl hh
+    | some x => rw [hh] at hce; simp at hce
+  by_cases hadm : (!adm (ca lvl).1.Username (ca lvl).1.AuthType && (ca lvl).1.Username != user) = true
+  · rw [if_pos hadm] at h; exact (bad _ h).elim
+  rw [if_neg hadm] at h
+  have hwho : adm (ca lvl).1.Username (ca lvl).1.AuthType = true ∨ (ca lvl).1.Username = user := by
+    cases ha : adm (ca lvl).1.Username (ca lvl).1.AuthType
+    · right; rw [ha] at hadm; simpa using hadm
+    · left; rfl
+  by_cases hle : (load user).2.2.2.isSome = true
+  · rw [if_pos hle] at h; exact (bad _ h).elim
+  rw [if_neg hle] at h
+  have hle' : (load user).2.2.2 = none := by
+    cases hh : (load user).2.2.2 with
+    | none => rfl
+    | some x => rw [hh] at hle; simp at hle
+  by_cases hfc : (load user).2.2.1 = true
+  · rw [if_pos hfc] at h; exact (bad _ h).elim
+  rw [if_neg hfc] at h
+  have hfc' : (load user).2.2.1 = false := by simpa using hfc
+  by_cases hre : fin.2.isSome = true
+  · rw [if_pos hre] at h; exact (bad _ h).elim
+  rw [if_neg hre] at h
+  have hre' : fin.2 = none := by
+    cases hh : fin.2 with
+    | none => rfl
+    | some x => rw [hh] at hre; simp at hre
+  refine ⟨(ca lvl).1, hca, hwho, hfc', hle', hre', ?_⟩
+  intro u hu
+  subst hu
+  repeat' split at h
+  all_goals first
+    | (simp at h; exact h)
+    | (simp at h)
+
+end KM.WaRegGo
